@@ -44,6 +44,24 @@ func init() {
 	GlobalValues = globalValues
 }
 
+// newVMGlobals - the predefined values handed to a new VM.
+// 异常 (its constructor can be redefined by 如何新建异常？) and 数值 (自增 / 自减
+// change it in place) carry mutable state, so every VM gets instances of its
+// own: one execution must not change what the next one sees.
+func newVMGlobals(predefined map[string]r.Element) map[string]r.Element {
+	globals := make(map[string]r.Element, len(predefined))
+	for name, elem := range predefined {
+		globals[name] = elem
+	}
+	if globals["异常"] == r.Element(ZnConstExceptionClass) {
+		globals["异常"] = newExceptionModel()
+	}
+	if _, ok := globals["数值"].(*value.Number); ok {
+		globals["数值"] = &value.Number{}
+	}
+	return globals
+}
+
 func newExceptionModel() *value.ClassModel {
 	constructorFunc := func(receiver r.Element, values []r.Element) (r.Element, error) {
 		if err := value.ValidateExactParams(values, "string"); err != nil {
